@@ -165,7 +165,7 @@ def run_check(prop, tier, seed, t0):
     orc_fail = [r for r in recs if r['oracle']]
     known_hits = {}
     for r in orc_fail:
-        key = prop.classify(r['case'], r['oracle'], r['model'])
+        key = _classify(prop, r['case'], r['oracle'], r['model'], r['impl'], r['diff'])
         r['key'] = key
         if key in listed:
             known_hits[key] = known_hits.get(key, 0) + 1
@@ -211,7 +211,7 @@ def run_check(prop, tier, seed, t0):
         if fails:
             outs = lib.run_model([prop.to_line(c, res) for c, res, _ in fails])
             for (c, res, orc), out in zip(fails, outs):
-                key = prop.classify(c, orc, out)
+                key = _classify(prop, c, orc, out, res, None)
                 if key in listed:
                     known_hits[key] = known_hits.get(key, 0) + 1
                     continue
@@ -280,6 +280,20 @@ def run_check(prop, tier, seed, t0):
     print('OK property=%s tier=%s cases=%d nontrivial=%d theorems=%d known-findings=%d wall=%.1fs' % (
         pid, tier, len(recs), len(distinct), obligations, len(kf_lines), time.time() - t0))
     return 0
+
+
+def _classify(prop, case, orc, out, res, diff):
+    """which listed finding (if any) a failure is: properties may look at the implementation's result and at its agreement
+    with the model too (a finding mirrored by the model is only that finding while the implementation still behaves like
+    the model)"""
+    if hasattr(prop, 'classify_full'):
+        if diff is None:
+            try:
+                diff = prop.agree(case, out, res)
+            except Exception as e:
+                diff = 'agree() raised %s' % type(e).__name__
+        return prop.classify_full(case, orc, out, res, diff)
+    return prop.classify(case, orc, out)
 
 
 def load_corpus(pid):
